@@ -10,7 +10,9 @@ import (
 	zzjson "encoding/json"
 	zzfmt "fmt"
 	zzos "os"
+	zzreflect "reflect"
 	zzruntime "runtime"
+	zzstrings "strings"
 	zztime "time"
 )
 
@@ -181,6 +183,26 @@ func zzTimers(n int)               {}
 func zzUnwindIn(fn string, n int, isBug bool) {}
 func zzClockAdvance(d int64)       { }
 func zzSameObject(a, b interface{}) bool { return a == b }
+
+// zzAssignByTag: v points to a struct; every field whose struct tag TAG names a key of kv
+// gets that value (absent keys leave the field untouched - the contract of a table decoder).
+// Returns the comma-separated tag names of the struct's fields, in field order.
+func zzAssignByTag(v interface{}, tag string, kv map[string]interface{}) string {
+	rv := zzreflect.ValueOf(v)
+	if rv.Kind() != zzreflect.Ptr || rv.Elem().Kind() != zzreflect.Struct {
+		return ""
+	}
+	st := rv.Elem()
+	var names []string
+	for i := 0; i < st.NumField(); i++ {
+		name := st.Type().Field(i).Tag.Get(tag)
+		names = append(names, name)
+		if val, ok := kv[name]; ok && name != "" && st.Field(i).CanSet() {
+			st.Field(i).Set(zzreflect.ValueOf(val))
+		}
+	}
+	return zzstrings.Join(names, ",")
+}
 func zzAliases(a, b []byte) bool {
 	if cap(a) == 0 || cap(b) == 0 {
 		return false
